@@ -446,6 +446,66 @@ fn real_selector_oracle(acc: &mut Acc, g: &mut SplitMix, base: &SplitMix) {
     one!("Tournament", move || Tournament::new(std::num::NonZeroUsize::new(k).unwrap()), ec_core::operator::selector::tournament::TournamentSizeError);
 }
 
+/// Zero-sized genomes / inputs behind the erased forms: the wrapped implementation is still called - it may fail, draw from
+/// the generator or count its calls - and the erased form does exactly what it does (model-free; a handful of flavours).
+fn zero_sized_cases(r: &mut Report, seed: u64) {
+    use std::sync::atomic::{AtomicUsize, Ordering};
+    struct UnitMut { d: usize, fail: bool, calls: AtomicUsize }
+    impl Mutator<()> for UnitMut {
+        type Error = ProbeErr;
+        fn mutate<R: Rng + ?Sized>(&self, _g: (), rng: &mut R) -> Result<(), ProbeErr> {
+            self.calls.fetch_add(1, Ordering::SeqCst);
+            for _ in 0..self.d { rng.next_u64(); }
+            if self.fail { Err(ProbeErr { id: 77, code: 3 }) } else { Ok(()) }
+        }
+    }
+    impl Mutator<[bool; 0]> for UnitMut {
+        type Error = ProbeErr;
+        fn mutate<R: Rng + ?Sized>(&self, g: [bool; 0], rng: &mut R) -> Result<[bool; 0], ProbeErr> {
+            self.calls.fetch_add(1, Ordering::SeqCst);
+            for _ in 0..self.d { rng.next_u64(); }
+            if self.fail { Err(ProbeErr { id: 78, code: 4 }) } else { Ok(g) }
+        }
+    }
+    impl Recombinator<[(); 2]> for UnitMut {
+        type Output = ();
+        type Error = ProbeErr;
+        fn recombine<R: Rng + ?Sized>(&self, _gs: [(); 2], rng: &mut R) -> Result<(), ProbeErr> {
+            self.calls.fetch_add(1, Ordering::SeqCst);
+            for _ in 0..self.d { rng.next_u64(); }
+            if self.fail { Err(ProbeErr { id: 79, code: 5 }) } else { Ok(()) }
+        }
+    }
+    for (k, (d, fail)) in [(0usize, false), (2, false), (1, true), (0, true), (3, true)].into_iter().enumerate() {
+        let m: &'static UnitMut = &*leak(UnitMut { d, fail, calls: AtomicUsize::new(0) });
+        let base = SplitMix::derive(seed ^ 0x25D, k as u64);
+        let mut why: Vec<String> = vec![];
+        let mut compare = |name: &str, direct: (String, u64), erased: (String, u64), calls_ok: bool| {
+            if direct != erased || !calls_ok { why.push(format!("{name}: wrapped gives {} (next word {}), erased gives {} (next word {}), wrapped implementation called: {calls_ok}", direct.0, direct.1, erased.0, erased.1)); }
+        };
+        macro_rules! one {
+            ($name:expr, $direct:expr, $erased:expr) => {{
+                let mut r1 = base.clone(); let mut r2 = base.clone();
+                let a = { let rng = &mut r1; format!("{:?}", $direct(rng)) };
+                let before = m.calls.load(Ordering::SeqCst);
+                let b = { let rng = &mut r2; format!("{:?}", $erased(rng)) };
+                let called = m.calls.load(Ordering::SeqCst) == before + 1;
+                compare($name, (a, r1.next_u64()), (b, r2.next_u64()), called);
+            }};
+        }
+        one!("Mutator<()> behind &dyn", |rng: &mut SplitMix| Mutator::<()>::mutate(m, (), rng), |rng: &mut SplitMix| { let e: &dyn DynMutator<(), ProbeErr> = m; e.mutate((), rng) });
+        one!("Mutator<()> behind Box<dyn>", |rng: &mut SplitMix| Mutator::<()>::mutate(m, (), rng), |rng: &mut SplitMix| { let e: Box<dyn DynMutator<(), ProbeErr>> = Box::new(m); e.mutate((), rng) });
+        one!("Mutator<[bool; 0]> behind Rc<dyn>", |rng: &mut SplitMix| Mutator::<[bool; 0]>::mutate(m, [], rng), |rng: &mut SplitMix| { let e: Rc<dyn DynMutator<[bool; 0], ProbeErr>> = Rc::new(m); e.mutate([], rng) });
+        one!("Mutator<()> behind Arc<dyn + Send + Sync>", |rng: &mut SplitMix| Mutator::<()>::mutate(m, (), rng), |rng: &mut SplitMix| { let e: Arc<dyn DynMutator<(), ProbeErr> + Send + Sync> = Arc::new(m); e.mutate((), rng) });
+        one!("Recombinator<[(); 2]> behind &dyn", |rng: &mut SplitMix| m.recombine([(), ()], rng), |rng: &mut SplitMix| { let e: &dyn DynRecombinator<[(); 2], ProbeErr, Output = ()> = m; e.recombine([(), ()], rng) });
+        r.case(&format!("zero-sized genome d={d} fail={fail}"), true);
+        r.hit("zero-sized genome behind erased forms");
+        if !why.is_empty() {
+            r.violate(json!({"case": format!("erased mutator / recombinator over a zero-sized genome (wrapped implementation draws {d} words, fails: {fail})"), "what": why}));
+        }
+    }
+}
+
 pub fn run(cfg: &Cfg) -> Report {
     let selftest: u8 = std::env::var("UEC_SELFTEST").ok().and_then(|s| s.parse().ok()).unwrap_or(0);
     let seed = cfg.seed;
@@ -464,6 +524,7 @@ pub fn run(cfg: &Cfg) -> Report {
             _ => real_selector_oracle(&mut acc, &mut g, &base),
         }
     });
+    zero_sized_cases(&mut rep, seed);
     // ---- inventory: proc-macro source vs Lean model vs what was compiled here
     let mut d = crate::driver::Driver::spawn(&cfg.driver);
     let model: Vec<String> = d.ask("ops flavours").split(',').map(|s| s.to_string()).collect();
